@@ -31,12 +31,13 @@ def check_case(case, stats=None, known=None):
         if stats:
             stats.counters['excluded_model_too_big'] += 1
         return []
+    weak = False
     if model.retrigger_possible:
+        # known finding shape: verdict oracle not applicable, but the run
+        # must still terminate with declared errors only.
         if stats:
             stats.counters['excluded_known_shape_join_retrigger'] += 1
-        return []
-    if known and known(case, model):
-        return []
+        weak = True
     res = enginerun.run_case(case)
     viol = []
     tg = G.tags(prog, case['outcomes'])
@@ -61,7 +62,7 @@ def check_case(case, stats=None, known=None):
         viol.append({'kind': 'undeclared-error',
                      'detail': {k: e.get(k) for k in
                                 ('type', 'msg', 'frame', 'where', 'label')}})
-    if not viol:
+    if not viol and not weak:
         outk = sorted(prog['output']) if prog.get('output') else []
         v = enginerun.verdict(res, outk)
         if v not in allowed:
